@@ -278,10 +278,12 @@ def _evaluate(pid, d, res, results, tier):
         fam_count[r["family"]] = fam_count.get(r["family"], 0) + 1
         ev_total += r["n_events"]
         env = simlib.envset(r)
-        if pid == "C02" and r.get("envt_first") == -1:
+        if pid == "C02" and r.get("envc_first") == -1:
+            # the hypothesis of theorem C02_one_claimant_backed_by_its_record_while_the_store_is_fast holds on this real trace
             n_lease_envT += 1
-            if r.get("env_first") != -1:
-                res.tie_broken.append("a real trace lies in the timed environment but outside the untimed one (scenario %s): contradicts lemma envT_env" % r["name"])
+            if not r["guards"] and (r.get("env_first") != -1 or r.get("envt_first") != -1):
+                res.tie_broken.append("an admitted real trace lies in the fast-store environment but outside the environments it is proved to imply "
+                                      "(scenario %s): contradicts lemmas envC_envT / envT_env" % r["name"])
         if pid == "C02" and r.get("env_first") == -1:
             # the hypothesis of theorem C02_partial_one_claimant_backed_by_its_record holds on this real trace
             n_lease_env += 1
